@@ -73,6 +73,9 @@ def run(tier, replay=None):
         for i in range(40 if tier == "quick" else 400):
             n = r.randint(4, 8); E = gnp(r, n, r.uniform(.35, .7))[:14]
             bases.append((n, [(u, v, r.randint(1, 4) if r.random() < .5 else 2 ** 40 + r.randint(0, 3)) for (u, v) in E]))
+        # beyond the 8-bit boundaries: more than 256 vertices, edges and cycle-space dimension
+        n = 300; E = gnp(r, n, 4.2 / n)
+        bases.append((n, weights(r, [tuple(e) for e in E], "wide")[0]))
         for i in range(4 if tier == "quick" else 30):
             n, E = big_graph(r, r.choice([60, 120] if tier == "quick" else [100, 200, 350]))
             WE, _ = weights(r, E, r.choice(["unit", "small", "wide"]))
